@@ -1,35 +1,50 @@
 import GqlModel.Format.Model
+import GqlModel.Parser.Query
 import GqlProofs.Format.QuoteLex
 import GqlProofs.Format.Writer
 import GqlProofs.Lexer.Progress
+import GqlProofs.Format.FmtTokens
+import GqlProofs.Format.FmtInvariant
+import GqlProofs.Format.NormPreserve
+import GqlProofs.Props.C05
 /-
   Property C12 — format ∘ parse round trip for executable documents.
 
   Proved here (kernel-checked, about the definitions the driver runs):
 
   * `C12_quote_roundtrip_gql`, `C12_quote_is_string_token`: the GraphQL quoting `gqlQuote`
-    (the repair of finding R12a) is read back byte for byte by the lexer model — the core of
-    "string values survive byte for byte whatever characters they contain".
-    Exact hypothesis: the value is well-formed UTF-8 (the encoding of a sequence of Unicode scalar
-    values).  Nothing else is needed: after `gqlQuote` no byte is left that the lexer rejects inside
-    a string (every byte < 0x20, DEL, `"` and `\` are escaped).  The hypothesis cannot be dropped:
-    the lexer replaces ill-formed UTF-8 by U+FFFD once an escape has been seen
+    (what `Value.String()` uses since the repair of finding R12a) is read back byte for byte by the
+    lexer model.  Exact hypothesis: the value is well-formed UTF-8; it cannot be dropped
     (`C12_quote_illformed_counterexample`).
-  * `C12_quote_strconv_counterexample`: the quoting of the unchanged tree (`strconv.Quote`, model
-    `goQuote`, which is what `renderValue` uses through `quoteString`) is NOT read back: U+0007
-    becomes `\a`, which the lexer model rejects.
+  * `C12_quote_strconv_counterexample`: `strconv.Quote` (the quoting before the repair, model
+    `goQuote`) is NOT read back.
+  * THE BRIDGE formatter text → tokens, for EVERY configuration whose indentation string consists
+    of ignored bytes (TAB, LF, CR, space, comma; the empty string included — separation comes from
+    the writer's pad / newline rules, never from the indentation), compacted or not:
+      `C12_format_tokens_value … _type … _argument … _argument_list … _directive_list …
+       _variable_definition_list … _selection … _selection_set … _operation … _fragment`
+    (one theorem per formatter function: what it appends to the writer is a complete sequence of
+    token texts for the printed tokens of the subtree) and the document theorem
+      `C12_format_tokens : tokensOf (fmtQuery cfg d) = some (printQueryLong (normFmt d))`.
+    `printQueryLong` differs from the unparser `printQuery` of C05 exactly where the formatter
+    deliberately differs: the operation keyword is always written (`{a}` comes out as
+    `query {a}`) and all operations are written before all fragments.  `normFmt` turns block-string
+    VALUES into string values (`Value.String()` writes both as a quoted string).
+    `C12_format_tokens_printQuery` is the statement with `printQuery` itself (no shorthand
+    operation, definitions recorded in that order); `C12_format_tokens_bare_counterexample` shows
+    that the side condition is needed.
+  * THE ROUND TRIP, with C05's parse ∘ print theorem (`C05_parse_print_long`):
+      `C12_format_roundtrip : parseQuery 0 (fmtQuery cfg d) = .ok d' ∧ d'.erasePos = (normFmt d).erasePos`
+      `C12_format_fixpoint  : … ∧ fmtQuery cfg d' = fmtQuery cfg d`
+      `C12_format_roundtrip_parsed`: the same for every `d` the parser returned (the side
+      conditions of C05 hold for parser output; `Formattable d` — decidable — stays a hypothesis).
 
-  Full-strength statements not reached (kept here so that nothing is weakened silently):
-
-    theorem C12_format_tokens (cfg : Cfg) (hind : ∀ b ∈ cfg.indent, b = 32 ∨ b = 9 ∨ b = 10 ∨ b = 13 ∨ b = 44)
-        (d : QueryDoc) (hd : ParsedDoc d) : Lexes (fmtQuery cfg d) (tokensOf d)
-    theorem C12_roundtrip … : parseQuery (fmtQuery cfg d) = ok d' ∧ d' ≃ d
-    theorem C12_fixpoint … : fmtQuery cfg d' = fmtQuery cfg d
-
-  They need the parser model (owned by another layer) and, for the unchanged tree, are false
-  (R12a, R12b); the writer-state lemmas they rest on are in `GqlProofs/Format/Writer.lean`.
+  Hypothesis `Formattable d` (GqlProofs/Format/Formattable.lean): names are lexer Names, Int / Float
+  raw texts are one number lexeme of that kind, string values are well-formed UTF-8, required
+  selection sets are not empty.  The writer-state lemmas are in `GqlProofs/Format/Writer.lean`,
+  the compositional lexing relation in `GqlProofs/Format/Lexes.lean`.
 -/
-open Gql Gql.Lexer Gql.Format
+open Gql Gql.Lexer Gql.Format Gql.Grammar Gql.Print Gql.Parser
 
 /-- Lexing `gqlQuote` body + closing quote from any state of the string loop yields one String
     token whose value is the accumulated prefix followed by the original bytes, and leaves exactly
@@ -46,55 +61,8 @@ theorem C12_quote_roundtrip_gql (q : Cur) (rest : Bytes) (cps : List Nat) (hs : 
 theorem C12_quote_is_string_token (cps : List Nat) (hs : ∀ r ∈ cps, IsScalar r) (rest : Bytes) (c : Cur)
     (hblk : cps ≠ [] ∨ rest.head? ≠ some 34) :
     ∃ t c', readToken (gqlQuote (utf8Encode cps) ++ rest) c = .tok t rest c' ∧
-      t.kind = .string ∧ t.value = utf8Encode cps := by
-  have hws : ws (34 :: (gqlQuoteBody (utf8Encode cps) ++ 34 :: rest)) c
-      = (34 :: (gqlQuoteBody (utf8Encode cps) ++ 34 :: rest), c) := by
-    rw [ws.eq_def]; simp
-  have hnb : ∀ tl', gqlQuoteBody (utf8Encode cps) ++ 34 :: rest ≠ 34 :: 34 :: tl' := by
-    intro tl' h
-    cases cps with
-    | nil =>
-      simp [utf8Encode, gqlQuoteBody] at h
-      rcases hblk with h' | h'
-      · exact h' rfl
-      · cases rest with
-        | nil => simp at h
-        | cons x xs => simp at h h'; exact h' h.1
-    | cons r cps =>
-      have hr := hs r (by simp)
-      have hp := encodeRune_length_pos r
-      have hE : utf8Encode (r :: cps) = encodeRune r ++ utf8Encode cps := by simp [utf8Encode]
-      rw [hE] at h
-      cases he : encodeRune r with
-      | nil => rw [he] at hp; simp at hp
-      | cons b bs =>
-        rw [he] at h
-        simp only [List.cons_append, gqlQuoteBody] at h
-        -- the first byte written for `b` is never a bare quote
-        obtain ⟨x, xs, hg, hx⟩ := gqlEscapeByte_head b
-        rw [hg] at h
-        simp at h
-        exact hx h.1
-  obtain ⟨t, c', h1, h2, h3⟩ := rsl_gqlQuoteBody c rest cps hs (c.adv 1 1) [] false
-  refine ⟨t, c', ?_, h2, by simpa using h3⟩
-  have hq : gqlQuote (utf8Encode cps) ++ rest = 34 :: (gqlQuoteBody (utf8Encode cps) ++ 34 :: rest) := by
-    simp [gqlQuote]
-  rw [hq]
-  unfold readToken
-  rw [hws]
-  simp only [readTokenBody, Gql.Lexer.punct_quote]
-  cases hX : gqlQuoteBody (utf8Encode cps) ++ 34 :: rest with
-  | nil => simp at hX
-  | cons x tl =>
-    rw [hX] at h1 hnb
-    cases tl with
-    | nil => simpa [isNameStart, isDigit] using h1
-    | cons y tl' =>
-      by_cases hxy : x = 34 ∧ y = 34
-      · exact absurd (by rw [hxy.1, hxy.2]) (hnb tl')
-      · have : ¬ (x = 34 ∧ y = 34) := hxy
-        simp [isNameStart, isDigit]
-        exact h1
+      t.kind = .string ∧ t.value = utf8Encode cps :=
+  readToken_gqlQuote cps hs rest c hblk
 
 /-- The quoting of the unchanged tree is not read back: `strconv.Quote("\a")` is `"\a"`, and `\a`
     is not a GraphQL escape (finding R12a). -/
@@ -131,7 +99,7 @@ theorem C12_quote_roundtrip_partial (bs : Bytes) (hb : ∀ b ∈ bs, PlainByte b
       t.kind = .string ∧ t.value = bs := by
   have hs : ∀ r ∈ bs, IsScalar r := by
     intro r hr; have := hb r hr; unfold PlainByte at this; unfold IsScalar; omega
-  have ha : utf8Encode bs = bs := utf8Encode_ascii bs (by
+  have ha : utf8Encode bs = bs := Gql.Format.utf8Encode_ascii bs (by
     intro r hr; have := hb r hr; unfold PlainByte at this; omega)
   have h := C12_quote_is_string_token bs hs rest c hblk
   rw [ha] at h
@@ -158,3 +126,181 @@ theorem C12_write_boundary (cfg : Cfg) (x : Bytes) (w : W) (hinv : w.Inv) :
 example : ∀ r ∈ [34, 92, 7, 0x1F600], IsScalar r := by decide
 example : ∀ b ∈ [104, 34, 105, 92, 10, 9], PlainByte b := by decide
 example : W.Inv {} := inv_init
+
+/-! ### the bridge: formatter text → tokens -/
+
+section Bridge
+variable {cfg : Cfg} (hind : BlankIndent cfg)
+include hind
+
+/-- `FormatValue`: appends token texts for the tokens of the value -/
+theorem C12_format_tokens_value {w : W} {ts : List Tok} (v : Value) (h : I false w ts) (hv : valueOk v = true) :
+    LexTo (formatValue cfg v w).text (ts ++ printValue (normValue v)) true := T_value hind v h hv
+
+theorem C12_format_tokens_type {w : W} {ts : List Tok} (t : GType) (h : I false w ts) (ht : typeOk t = true) :
+    LexTo (formatType cfg t w).text (ts ++ printType t) true := T_type hind t h ht
+
+theorem C12_format_tokens_argument {w : W} {ts : List Tok} (a : Argument) (h : I false w ts) (ha : argOk a = true) :
+    LexTo (formatArgument cfg a w).text (ts ++ printArgument (normArg a)) true := T_argument hind a h ha
+
+theorem C12_format_tokens_argument_list {g : Bool} {w : W} {ts : List Tok} (as : List Argument)
+    (h : I g w ts) (ha : as.all argOk = true) :
+    I g (formatArgumentList cfg as w) (ts ++ printArguments (as.map normArg)) := T_argumentList hind as h ha
+
+theorem C12_format_tokens_directive_list {g : Bool} {w : W} {ts : List Tok} (ds : List Directive)
+    (h : I g w ts) (hd : ds.all dirOk = true) :
+    I g (formatDirectiveList cfg ds w) (ts ++ printDirectives (ds.map normDir)) := T_directiveList hind ds g w ts h hd
+
+theorem C12_format_tokens_variable_definition_list {g : Bool} {w : W} {ts : List Tok} (ds : List VarDef)
+    (h : I g w ts) (hd : ds.all varDefOk = true) :
+    I g (formatVariableDefinitionList cfg ds w) (ts ++ printVarDefs (ds.map normVarDef)) := T_varDefList hind ds h hd
+
+theorem C12_format_tokens_selection {w : W} {ts : List Tok} (s : Selection) (h : LexTo w.text ts false)
+    (hs : selOk s = true) :
+    LexTo (formatSelection cfg s w).text (ts ++ printSelection (normSel s)) false := T_selection hind s w ts h hs
+
+theorem C12_format_tokens_selection_set {g : Bool} {w : W} {ts : List Tok} (sel : Selections) (h : I g w ts)
+    (hs : selsOk sel = true) :
+    I g (formatSelectionSet cfg sel w) (ts ++ optSelSet (normSels sel)) := T_selectionSet hind sel g w ts h hs
+
+theorem C12_format_tokens_operation {w : W} {ts : List Tok} (o : OperationDef) (h : LexTo w.text ts false)
+    (ho : opOk o = true) :
+    LexTo (formatOperationDefinition cfg o w).text (ts ++ printOperationLong (normOp o)) false :=
+  T_operation hind o h ho
+
+theorem C12_format_tokens_fragment {w : W} {ts : List Tok} (f : FragmentDef) (h : LexTo w.text ts false)
+    (hf : fragOk f = true) :
+    LexTo (formatFragmentDefinition cfg f w).text (ts ++ printFragment (normFrag f)) false :=
+  T_fragment hind f h hf
+
+/-- THE BRIDGE: the text the formatter writes for an executable document lexes (comments and EOF
+    aside) to exactly the tokens of the document, every operation with its keyword, operations
+    before fragments — for every configuration. -/
+theorem C12_format_tokens (d : QueryDoc) (hd : Formattable d) :
+    tokensOf (fmtQuery cfg d) = some (printQueryLong (normFmt d)) := tokensOf_fmtQuery hind d hd
+
+omit hind in
+/-- the unparser of C05 prints the same tokens when no operation is in shorthand form and the
+    recorded positions put the operations, in order, before the fragments, in order -/
+theorem C12_printQuery_eq_long (d : QueryDoc) (hb : ∀ o ∈ d.ops, OperationDef.isBare o = false)
+    (hs : (d.ops.map (fun o => o.pos.start) ++ d.frags.map (fun f => f.pos.start)).Pairwise (· ≤ ·)) :
+    printQuery d = printQueryLong d := by
+  unfold printQuery inSourceOrder printQueryLong
+  have hp : (d.ops.map (fun o => (o.pos.start, printOperation o)) ++
+      d.frags.map (fun f => (f.pos.start, printFragment f))).Pairwise (fun a b => decide (a.1 ≤ b.1) = true) := by
+    have : (d.ops.map (fun o => (o.pos.start, printOperation o)) ++
+        d.frags.map (fun f => (f.pos.start, printFragment f))).map (·.1)
+        = d.ops.map (fun o => o.pos.start) ++ d.frags.map (fun f => f.pos.start) := by
+      simp [List.map_map, Function.comp_def]
+    rw [← this, List.pairwise_map] at hs
+    exact hs.imp (by intro a b h; simpa using h)
+  rw [List.mergeSort_of_pairwise hp]
+  have e : d.ops.map printOperation = d.ops.map printOperationLong :=
+    List.map_congr_left fun o ho => (printOperationLong_of_not_bare o (hb o ho)).symm
+  simp [List.map_map, Function.comp_def, e]
+
+/-- the bridge with the unparser of C05 itself -/
+theorem C12_format_tokens_printQuery (d : QueryDoc) (hd : Formattable d)
+    (hb : ∀ o ∈ d.ops, OperationDef.isBare o = false)
+    (hs : (d.ops.map (fun o => o.pos.start) ++ d.frags.map (fun f => f.pos.start)).Pairwise (· ≤ ·)) :
+    tokensOf (fmtQuery cfg d) = some (printQuery (normFmt d)) := by
+  rw [C12_format_tokens hind d hd, C12_printQuery_eq_long (normFmt d)]
+  · intro o ho
+    simp only [normFmt, List.mem_map] at ho
+    obtain ⟨o0, ho0, rfl⟩ := ho
+    have := hb o0 ho0
+    simpa [OperationDef.isBare, normOp] using this
+  · simpa [normFmt, normOp, normFrag, List.map_map, Function.comp_def] using hs
+
+/-- THE ROUND TRIP: the formatted text of a formattable, printable document parses, and the result
+    is the document (block-string values as string values) up to positions. -/
+theorem C12_format_roundtrip (d : QueryDoc) (hd : Formattable d)
+    (hops : ∀ o ∈ d.ops, WFOperation o ∧ OpOK o) (hfrags : ∀ f ∈ d.frags, WFFragment f ∧ FragOK f) :
+    ∃ d', parseQuery 0 (fmtQuery cfg d) = .ok d' ∧ d'.erasePos = (normFmt d).erasePos := by
+  refine C05_parse_print_long (normFmt d) ?_ ?_ (fmtQuery cfg d) ?_
+  · intro o ho
+    simp only [normFmt, List.mem_map] at ho
+    obtain ⟨o0, ho0, rfl⟩ := ho
+    exact ⟨WFOperation_norm o0 (hops o0 ho0).1, OpOK_norm o0 (hops o0 ho0).2⟩
+  · intro f hf
+    simp only [normFmt, List.mem_map] at hf
+    obtain ⟨f0, hf0, rfl⟩ := hf
+    exact ⟨WFFragment_norm f0 (hfrags f0 hf0).1, FragOK_norm f0 (hfrags f0 hf0).2⟩
+  · rw [C12_format_tokens hind d hd]
+    have e : (normFmt d).ops.map opLong = (normFmt d).ops.map printOperationLong :=
+      List.map_congr_left fun o _ => (printOperationLong_eq_opLong o).symm
+    rw [e]; rfl
+
+/-- … and formatting is a fixpoint: formatting the re-parsed document gives the same text. -/
+theorem C12_format_fixpoint (d : QueryDoc) (hd : Formattable d)
+    (hops : ∀ o ∈ d.ops, WFOperation o ∧ OpOK o) (hfrags : ∀ f ∈ d.frags, WFFragment f ∧ FragOK f) :
+    ∃ d', parseQuery 0 (fmtQuery cfg d) = .ok d' ∧ d'.erasePos = (normFmt d).erasePos ∧
+      fmtQuery cfg d' = fmtQuery cfg d := by
+  obtain ⟨d', h1, h2⟩ := C12_format_roundtrip hind d hd hops hfrags
+  exact ⟨d', h1, h2, fmtQuery_congr d d' h2⟩
+
+/-- the round trip and the fixpoint for every document the parser returned -/
+theorem C12_format_roundtrip_parsed (inp : Bytes) (d : QueryDoc) (hp : parseQuery 0 inp = .ok d)
+    (hd : Formattable d) :
+    ∃ d', parseQuery 0 (fmtQuery cfg d) = .ok d' ∧ d'.erasePos = (normFmt d).erasePos ∧
+      fmtQuery cfg d' = fmtQuery cfg d := by
+  have hpq := C05_parse_printable inp d hp
+  exact C12_format_fixpoint hind d hd (fun o ho => hpq.1 o ho) (fun f hf => hpq.2.1 f hf)
+
+end Bridge
+
+/-- the default configuration (indent = one TAB) and every blank indentation are covered -/
+theorem C12_blankIndent_default : BlankIndent {} := by
+  intro b hb; simp at hb; subst hb; rfl
+
+theorem C12_blankIndent_empty : BlankIndent { indent := [] } := by
+  intro b hb; simp at hb
+
+/-- the query `{a}` (shorthand form): formatted as `query {⏎⇥a⏎}⏎`, whose tokens are not the
+    unparser's `{ a }` — the side condition of `C12_format_tokens_printQuery` is needed -/
+def C12_bareDoc : QueryDoc :=
+  { ops := [{ op := str "query", name := [], vars := [], dirs := [],
+              sel := .cons (.field (str "a") (str "a") [] [] .nil Pos.zero) .nil, pos := Pos.zero }],
+    frags := [] }
+
+theorem C12_format_tokens_bare_counterexample :
+    Formattable C12_bareDoc ∧
+    tokensOf (fmtQuery {} C12_bareDoc) = some (tKw "query" :: printQuery (normFmt C12_bareDoc)) := by
+  refine ⟨by decide, ?_⟩
+  rw [C12_format_tokens C12_blankIndent_default C12_bareDoc (by decide)]
+  simp [printQueryLong, printQuery, inSourceOrder, normFmt, C12_bareDoc, printOperationLong, printOperation,
+    OperationDef.isBare, normOp, tKw, tName, printVarDefs, printDirectives]
+
+/-- non-vacuity of `Formattable`: a document with variables, a default value, directives, an
+    alias, nested selections, a block-string value, a fragment spread and an inline fragment -/
+def C12_sampleDoc : QueryDoc :=
+  { ops := [{ op := str "query", name := str "Q",
+              vars := [{ var := str "v", type := .list (.named (str "Int") true Pos.zero) false Pos.zero,
+                         default := some (.mk .list [] (.cons [] (.mk .int (str "1") .nil Pos.zero) Pos.zero .nil) Pos.zero),
+                         dirs := [], pos := Pos.zero }],
+              dirs := [{ name := str "d", args := [], pos := Pos.zero }],
+              sel := .cons (.field (str "x") (str "a")
+                        [{ name := str "s", value := .mk .block [104, 34, 10] .nil Pos.zero, pos := Pos.zero },
+                         { name := str "f", value := .mk .float (str "-1.5e3") .nil Pos.zero, pos := Pos.zero }]
+                        [] (.cons (.spread (str "F") [] Pos.zero) .nil) Pos.zero)
+                     (.cons (.inline (str "T") [] (.cons (.field (str "b") (str "b") [] [] .nil Pos.zero) .nil) Pos.zero) .nil),
+              pos := Pos.zero }],
+    frags := [{ name := str "F", vars := [], typeCond := str "T", dirs := [],
+                sel := .cons (.field (str "c") (str "c") [] [] .nil Pos.zero) .nil, pos := Pos.zero }] }
+
+example : Formattable C12_sampleDoc := by decide
+
+/-- FINDING (input that is not well-formed UTF-8): `strRaw` in `Formattable` cannot be dropped even
+    for PARSED documents.  The lexer keeps the bytes of a string literal as they are until the first
+    escape sequence, so `{a(s:"⇥\xFF")}` (a raw TAB, then the ill-formed byte FF) parses with the
+    value 09 FF; the formatter writes the TAB as `\t`, and after that escape the lexer re-encodes what
+    it decodes: the re-parsed value is 09 EF BF BD (TAB, U+FFFD).  The same with DEL (written as
+    `\u007f`) in place of TAB.  (Go: `rtq` on 7b6128733a2209ff22297d answers `tree-differs:A-V`.) -/
+theorem C12_string_value_illformed_counterexample :
+    (∃ t c', readToken [34, 9, 255, 34] Cur.init = .tok t [] c' ∧ t.kind = .string ∧ t.value = [9, 255]) ∧
+    (∃ t c', readToken (quoteString [9, 255]) Cur.init = .tok t [] c' ∧ t.kind = .string ∧
+      t.value = [9, 0xEF, 0xBF, 0xBD]) ∧ strRaw [9, 255] = false := by
+  refine ⟨?_, ?_, by decide⟩
+  · simp [readToken, ws, readTokenBody, isNameStart, isDigit, readStringLoop.eq_def, decodeRune, runeError]
+  · simp [quoteString, gqlQuote, gqlQuoteBody, gqlEscapeByte, readToken, ws, readTokenBody, isNameStart, isDigit,
+      readStringLoop.eq_def, decodeRune, encodeRune, runeError, escapeOut]
